@@ -3,7 +3,8 @@ package main
 // Several pools in ONE process, literal option lists (properties C07, C08): the configuration of a pool / of a
 // task must be a function of the options given to THAT NewPool / Send call only.
 //
-// case:  antsmp H=<horizon> [gc=<t>,<t>...] <npools> <pool>... <task>...
+// case:  antsmp H=<horizon> [gc=<t>,<t>...] [drop=<p>:<t>,...] <npools> <pool>... <task>...
+//        drop=: at instant t the harness drops its reference to pool p (no Send to p follows) and forces runtime.GC() twice
 //        gc=: at each of these virtual instants runtime.GC() is forced twice (2 ns apart) while the script goes on
 // pool:  <create>/<opts>          created by NewPool(opts...) at the virtual instant <create> (pools are listed in
 //                                 creation order and created one after the other by one goroutine)
@@ -63,6 +64,18 @@ func runAntsMP(toks []string) string {
 	if strings.HasPrefix(toks[0], "gc=") {
 		for _, g := range strings.Split(toks[0][3:], ",") {
 			gcAt = append(gcAt, time.Duration(atoi64(g)))
+		}
+		toks = toks[1:]
+	}
+	type dropSpec struct {
+		pool int
+		at   time.Duration
+	}
+	var drops []dropSpec
+	if strings.HasPrefix(toks[0], "drop=") {
+		for _, d := range strings.Split(toks[0][5:], ",") {
+			f := strings.SplitN(d, ":", 2)
+			drops = append(drops, dropSpec{int(atoi64(f[0])), time.Duration(atoi64(f[1]))})
 		}
 		toks = toks[1:]
 	}
@@ -161,6 +174,22 @@ func runAntsMP(toks []string) string {
 			logf(func() string { return fmt.Sprintf("GC,%d", now()) })
 			runtime.GC()
 			time.Sleep(2 * time.Nanosecond) // the finalizer goroutine (if anything was finalizable) runs before the clock moves
+			runtime.GC()
+		}()
+	}
+
+	// "drop the pool, keep the Tasks": the harness forgets its only reference to pool p (no Send to p follows) while
+	// tasks of p may still be queued or running, then forces two garbage collections: every accepted task must still
+	// complete with its handler's result
+	for _, d := range drops {
+		d := d
+		wg.Add(1)
+		go func() {
+			defer wg.Done()
+			time.Sleep(d.at - time.Since(base))
+			logf(func() string { pools[d.pool] = nil; return fmt.Sprintf("DROP,%d,%d", d.pool, now()) })
+			runtime.GC()
+			time.Sleep(2 * time.Nanosecond)
 			runtime.GC()
 		}()
 	}
